@@ -1648,3 +1648,18 @@ package memberlist
 //@   safety [C13]
 //@   at call (*github.com/hashicorp/go-msgpack/v2/codec.Decoder).Decode: set $dErr := res
 //@   ensures-internal faithful [C09,C13]: (result == nil) <==> ($dErr == 0)
+
+// the concrete transport's send and dial path: no panic, given what NewNetTransport sets up (at least one UDP listener:
+// it rejects an empty bind list; that constructor itself is not under contract, so this precondition is an assumption)
+//@ func (*NetTransport).WriteToAddress(t, b, a)
+//@   safety [C13,C20]
+//@   requires nn: t != nil && len(t.udpListeners) >= 1 && t.udpListeners[0] != nil
+//@ func (*NetTransport).WriteTo(t, b, addr)
+//@   safety [C13,C20]
+//@   requires nn: t != nil && len(t.udpListeners) >= 1 && t.udpListeners[0] != nil
+//@ func (*NetTransport).DialTimeout(t, addr, timeout)
+//@   safety [C13,C20]
+//@   requires nn: t != nil
+//@ func (*NetTransport).DialAddressTimeout(t, a, timeout)
+//@   safety [C13,C20]
+//@   requires nn: t != nil
